@@ -220,6 +220,14 @@ fn gen_function(rng: &mut Rng) -> Function {
         ..GenOpts::default()
     };
     let mut f = ilgen::generate(rng, &o).f;
+    // one function in four has been through ControlFlowGraph::merge() (blocks absorbed and removed,
+    // instructions appended to blocks that had instructions removed)
+    if rng.chance(1, 4) {
+        let mut cfg = f.control_flow_graph().clone();
+        if let Ok(Ok(())) = guard(|| cfg.merge()) {
+            f = Function::new(f.address(), cfg);
+        }
+    }
     // instruction indices need not follow the order of the instructions (Block::instructions_mut is public):
     // one function in four has blocks whose instructions were rotated
     if rng.chance(1, 4) {
